@@ -166,11 +166,11 @@ fn wide(r: &mut Rng) -> u64 {
 }
 
 fn len_pick(r: &mut Rng) -> usize {
-    match r.below(20) {
-        0..=3 => 0,
-        4..=6 => 1,
-        7..=15 => r.range(2, 24) as usize,
-        16..=18 => r.range(25, 300) as usize,
+    match r.below(40) {
+        0..=7 => 0,
+        8..=13 => 1,
+        14..=31 => r.range(2, 24) as usize,
+        32..=38 => r.range(25, 300) as usize,
         _ => r.range(301, 3000) as usize,
     }
 }
@@ -317,12 +317,13 @@ fn hostile_utf8(r: &mut Rng, allow_nul: bool) -> Vec<u8> {
 }
 
 fn gen_dns(r: &mut Rng) -> DnsF {
-    let rdata = match r.below(10) {
-        0 => vec![],
-        1..=5 => r.bytes(4),
-        6..=7 => { let n = r.range(1, 40) as usize; r.bytes(n) }
-        8 => { let n = r.range(41, 600) as usize; r.bytes(n) }
-        _ => { let n = if r.coin(1, 4) { 65535 } else { r.range(601, 5000) as usize }; r.bytes(n) }
+    let rdata = match r.below(40) {
+        0..=3 => vec![],
+        4..=21 => r.bytes(4),
+        22..=31 => { let n = r.range(1, 40) as usize; r.bytes(n) }
+        32..=37 => { let n = r.range(41, 600) as usize; r.bytes(n) }
+        38 => { let n = r.range(601, 5000) as usize; r.bytes(n) }
+        _ => { let n = if r.coin(1, 4) { 65535 } else { r.range(601, 2000) as usize }; r.bytes(n) }
     };
     DnsF {
         hdr: [e16(r), e16(r), e16(r), e16(r), e16(r), e16(r)],
